@@ -212,7 +212,7 @@ type Term struct {
 	Bytes     *HexString `| @@`
 	String    *string    `| @String`
 	Date      *string    `| @DateTime`
-	Integer   *int64     `| @Int`
+	Integer   *int64     `| @("-"? Int)`
 	Bool      *Bool      `| @Bool`
 	Set       []*Term    `| "[" @@ ("," @@)* "]"`
 }
